@@ -214,6 +214,33 @@ def feasible_succs(t, env):
     return None
 
 
+def _refine_bool_edges(b, bi, t, edges):
+    """a branch on a named boolean variable fixes its value on each side: a later test of the same variable follows the same
+    side (`if is_block_dev { check size } .. if !is_block_dev { resize }` are not independent)"""
+    op = t['op']
+    if op['k'] not in ('copy', 'move') or op['pl']['p'] or t['vals'] != [0] or b.lty(op['pl']['l']).get('k') != 'bool':
+        return edges
+    l = op['pl']['l']
+    src, neg = None, False
+    for st in reversed(b.blocks[bi]['stmts']):
+        if st['k'] == 'assign' and not st['pl']['p'] and st['pl']['l'] == l:
+            rv = st['rv']
+            o = rv.get('op') if rv['k'] == 'use' else rv.get('a') if (rv['k'] == 'unop' and rv['op'] == 'Not') else None
+            if isinstance(o, dict) and o.get('k') in ('copy', 'move') and not o['pl']['p']:
+                src, neg = o['pl']['l'], rv['k'] == 'unop'
+            break
+    names = [x for x in (l, src) if x is not None and b.locals[x].get('user') and b.locals[x].get('name')]
+    if not names or t['targets'][0] == t['otherwise']:
+        return edges
+    out = []
+    for s2, rs2, e2 in edges:
+        val = s2 != t['targets'][0]
+        for x in names:
+            e2 = _env_set(b, e2, x, ('c', (not val) if (x == src and neg) else val))
+        out.append((s2, rs2, e2))
+    return out
+
+
 class Explorer:
     def __init__(self, body, rule, max_states=400000, start=0):
         self.b = body
@@ -283,6 +310,8 @@ class Explorer:
             edges = [(s2, rs2, env2) for s2, rs2 in r if only is None or s2 in only]
         else:
             edges = [(s2, r, env2) for s2 in (succs(t) if only is None else only)]
+        if t['k'] == 'switch' and only is None:
+            edges = _refine_bool_edges(b, bi, t, edges)
         if fork_call and t['k'] == 'call' and not t['dest']['p'] and not isinstance(r, list):
             forks = fork_call(b, bi, t, r)
             if forks and t.get('t') is not None:
@@ -295,6 +324,12 @@ class Explorer:
                 st2 = ocs2 + ('Unassigned',) * (d2 - dep)
             elif d2 < dep:
                 st2 = ocs2[:len(ocs2) - (dep - d2)] or ('Unassigned',)
+                # a helper whose result is the caller's own return value (`_0 = helper(..)`): what the helper returned is what
+                # the caller returns
+                last = b.blocks[bi]['stmts'][-1] if b.blocks[bi]['stmts'] else None
+                if last is not None and last.get('inl') == 'ret' and last['k'] == 'assign' and not last['pl']['p'] and last['pl']['l'] == fr.r(s2) \
+                        and dep - d2 == 1:
+                    st2 = st2[:-1] + (oc2 if oc2 in ('Ok', 'Err') else 'Unknown',)
             else:
                 st2 = ocs2
             self.edges.add((bi, s2))
